@@ -68,6 +68,7 @@ func ruleStreamConfigPlumbing(c *eng.Ctx, only ...string) {
 	c.Rule(rule, kind)
 	gs := c.Fn("server.getStreamConfig")
 	ao := c.Fn("server.(*StreamsConfig).ApplyOverrides")
+	skipped := map[string]string{}
 	np := c.Fn("server.(*Server).newPartition")
 	for _, s := range streamSettings {
 		if len(want) > 0 && !want[s.proto] {
@@ -121,6 +122,11 @@ func ruleStreamConfigPlumbing(c *eng.Ctx, only ...string) {
 					if g, _ := eng.GuardedBy(ao, st, present); !g || len(present) == 0 {
 						return // applied on the branch where the override is absent: not an application
 					}
+					// present ⇒ applied, whatever the value: 0 is how a limit is switched off (the cursors stream relies on it)
+					q := &eng.PathQuery{Fn: ao, FromEdges: present, Target: isReturn, CutInstr: func(x ssa.Instruction) bool { return x == ssa.Instruction(st) }}
+					if w := q.Find(); w != nil {
+						skipped[s.proto] = w.String()
+					}
 					if eng.FieldNameOf(fa) == s.cfg {
 						ok = true
 					} else {
@@ -131,6 +137,9 @@ func ruleStreamConfigPlumbing(c *eng.Ctx, only ...string) {
 			detail := "ApplyOverrides does not apply the stream's " + s.proto + " override to StreamsConfig." + s.cfg
 			if wrong != "" {
 				detail += " (it is stored into StreamsConfig." + wrong + ")"
+			}
+			if w, isSkipped := skipped[s.proto]; isSkipped && ok {
+				c.Check(false, "a present override is applied whatever its value: "+s.proto, p.Pos(ao.Pos()), "if c."+s.proto+" != nil { l."+s.cfg+" = … } with no further condition", "ApplyOverrides can skip a "+s.proto+" override that is present ("+w+"): a value the condition excludes — 0 is how a limit is switched off — leaves the server default in force; the cursors stream, whose retention limits are switched off this way, loses idle cursors to the delete cleaner")
 			}
 			c.Check(ok && wrong == "", "stream config → partition settings: "+s.proto, p.Pos(ao.Pos()), "l."+s.cfg+" = c."+s.proto+".Value", detail+": the partition runs with the server default (or a wrong limit) although the stream was created with its own value")
 		}
